@@ -16,6 +16,7 @@ import Alpaqa.Proofs.C12Adjoint
 import Alpaqa.Proofs.C12Riccati
 import Alpaqa.Proofs.C12Optimal
 import Alpaqa.Proofs.C12Deriv
+import Alpaqa.Proofs.C12AffQuad
 import Mathlib.Tactic.NormNum
 import Mathlib.Algebra.Order.Field.Rat
 
@@ -320,6 +321,39 @@ theorem backward_is_gradient_affquad (N nx nu nh nc nhN ncN : Nat) (P : OCP α)
     forward_eq_spec N nx nu nh nc nhN ncN P hw D DN μ y st' x0 _ hlen' hx0' hU']
   exact cost_directional_derivative N nx nu nh nc nhN ncN P A hw hg D DN μ y _ x0 U δU hx0l hUl hδl
     hμl hyl hμ hDl hDNl hD hDN inv hhN hcN ε
+
+/-- **`backward_is_gradient_affine_quadratic`** — the same statement for the problems given by
+    matrices: `f_t(x,u) = A_t x + B_t u + b_t`, `ℓ_t(x,u) = ½(x;u)ᵀH_t(x;u) + g_tᵀ(x;u)`,
+    `ℓ_N(x) = ½xᵀH_N x + g_Nᵀx` (`H` symmetric), `c_t(x) = E_t x + e_t`, `c_N(x) = E_N x + e_N`
+    (no outputs: `nh = nh_N = 0`), all dimensions and horizons: `AQData.toOCP` builds the twelve
+    oracles, `AQData.affQuad` shows the problem is in the class. -/
+theorem backward_is_gradient_affine_quadratic (N nx nu nc ncN : Nat) (d : AQData α) (hwf : d.WF nx nu)
+    (D DN : Box α) (μ y st st' x0 : Vec α) (U δU : Nat → Vec α) (ε : α)
+    (hx0l : x0.length = nx) (hUl : ∀ t < N, (U t).length = nu) (hδl : ∀ t < N, (δU t).length = nu)
+    (hμl : μ.length = N * nc + ncN) (hyl : y.length = N * nc + ncN) (hμ : ∀ m ∈ μ, 0 < m)
+    (hDl : D.length = nc) (hDNl : DN.length = ncN)
+    (hD : ∀ bd ∈ D, ∀ l u, bd.1 = some l → bd.2 = some u → l ≤ u)
+    (hDN : ∀ bd ∈ DN, ∀ l u, bd.1 = some l → bd.2 = some u → l ≤ u)
+    (hlen : st.length = (OCPVars.ofProblem N nx nu 0 nc 0 ncN).createSize)
+    (hx0 : getSeg st ((OCPVars.ofProblem N nx nu 0 nc 0 ncN).xkStart 0)
+      ((OCPVars.ofProblem N nx nu 0 nc 0 ncN).xkLen 0) = x0)
+    (hU : ∀ t < N, getSeg st ((OCPVars.ofProblem N nx nu 0 nc 0 ncN).ukStart t)
+      ((OCPVars.ofProblem N nx nu 0 nc 0 ncN).ukLen t) = U t)
+    (hlen' : st'.length = (OCPVars.ofProblem N nx nu 0 nc 0 ncN).createSize)
+    (hx0' : getSeg st' ((OCPVars.ofProblem N nx nu 0 nc 0 ncN).xkStart 0)
+      ((OCPVars.ofProblem N nx nu 0 nc 0 ncN).xkLen 0) = x0)
+    (hU' : ∀ t < N, getSeg st' ((OCPVars.ofProblem N nx nu 0 nc 0 ncN).ukStart t)
+      ((OCPVars.ofProblem N nx nu 0 nc 0 ncN).ukLen t) = vadd (U t) (smul ε (δU t))) :
+    |(forward (d.toOCP nx nu nc ncN) (OCPVars.ofProblem N nx nu 0 nc 0 ncN) D DN μ y st').2
+        - (forward (d.toOCP nx nu nc ncN) (OCPVars.ofProblem N nx nu 0 nc 0 ncN) D DN μ y st).2
+        - ε * dot (backward (d.toOCP nx nu nc ncN) (OCPVars.ofProblem N nx nu 0 nc 0 ncN) D DN μ y
+              (forward (d.toOCP nx nu nc ncN) (OCPVars.ofProblem N nx nu 0 nc 0 ncN) D DN μ y st).1).g
+            ((List.range N).map δU).flatten|
+      ≤ (|quadPart N nx nu 0 nc 0 ncN (d.toOCP nx nu nc ncN) (d.affQuad nx nu nc ncN hwf) δU|
+          + penCap N nx nu 0 nc 0 ncN (d.toOCP nx nu nc ncN) (d.affQuad nx nu nc ncN hwf) μ δU) * ε ^ 2 :=
+  backward_is_gradient_affquad N nx nu 0 nc 0 ncN (d.toOCP nx nu nc ncN) (d.affQuad nx nu nc ncN hwf)
+    (d.wellDim nx nu nc ncN) (d.gradDim nx nu nc ncN) D DN μ y st st' x0 U δU ε hx0l hUl hδl hμl hyl hμ
+    hDl hDNl hD hDN hlen hx0 hU hlen' hx0' hU'
 end deriv
 
 /-! ### 5. `factor_masked` + `solve_masked` return a KKT point of the masked QP -/
@@ -706,6 +740,24 @@ example : quadPart 2 1 1 1 1 1 1 exOCP exAQ (fun t => if t = 0 then [(1:ℚ)] el
     penCap 2 1 1 1 1 1 1 exOCP exAQ [1, 2, 4] (fun t => if t = 0 then [(1:ℚ)] else [-2]) = 1 := by
   simp only [quadPart, penCap, Finset.sum_range_succ, Finset.sum_range_zero]
   decide +kernel
+
+/-- a two-state, one-input affine-quadratic problem given by matrices (symmetric Hessians): the
+    well-formedness hypothesis of `backward_is_gradient_affine_quadratic` holds. -/
+def exAQData : AQData ℚ where
+  A _ := [[1, 1], [0, 1]]
+  B _ := [[0], [1]]
+  b _ := [0, 1 / 2]
+  H _ := [[2, 0, 1], [0, 1, 0], [1, 0, 3]]
+  g _ := [1, 0, -1]
+  HN := [[1, 1 / 2], [1 / 2, 2]]
+  gN := [0, 1]
+  E _ := [[1, -1]]
+  e _ := [1 / 2]
+  EN := [[0, 1]]
+  eN := [0]
+example : exAQData.WF 2 1 :=
+  ⟨fun _ => by ext i j; fin_cases i <;> fin_cases j <;> rfl, fun _ => rfl,
+   by ext i j; fin_cases i <;> fin_cases j <;> rfl, rfl⟩
 
 end examples
 
